@@ -1185,6 +1185,13 @@ class _Walker:
                 and self.f.params[0] in ('cls', 'self') and (d.count('.') == 1 or '.__class__.' in d):
             self.s.dangling.append((c, d))
             return fresh
+        # `<expr>.__class__.NAME(...)` / `type(<expr>).NAME(...)` with a NAME that no class of the package defines (the generated dispatcher for
+        # `pow`, guarded by hasattr): the classes of the package cannot be the receiver, so no array of the package is written
+        rv = c.func.value
+        if (isinstance(rv, ast.Attribute) and rv.attr == '__class__') or (isinstance(rv, ast.Call) and isinstance(rv.func, ast.Name) and rv.func.id == 'type'
+                                                                             and len(rv.args) == 1):
+            self.s.dangling.append((c, norm(c.func)))
+            return fresh
         # unknown method
         if any(x[0] == 'p' for x in (r | allargs)):
             self.s.unknown.append((c, 'unresolved method `.%s`' % name))
